@@ -99,6 +99,12 @@ def step (_ : Unit) (w : List String) : Unit × Out :=
         cov := covOf t m.2.2 }
     | _, _ => { model := "bad-op" }
   match w with
+  | ["visitdel", tw, sw] =>
+    -- the callback deletes the object member it is called for whenever it answers SKIP on the first call: the calls
+    -- made are those of the plain traversal with the same answers (a skipped member's subtree is not entered, its
+    -- siblings are still visited); what the tree looks like afterwards is not compared
+    let o := run tw sw 0
+    ((), { o with model := (o.model.splitOn " ## ").headD "" ++ " ## deleted", cov := o.cov ++ ["visitdel"] })
   | ["visit", tw, sw] => ((), run tw sw 0)
   | ["visit", tw, sw, fw] =>
     match parseInt? fw with
